@@ -214,7 +214,7 @@ func init() {
 			return s
 		},
 		Run:  c05Run,
-		Rule: "compositions wrapper^d ∘ statement-form ∘ expression-context^e ∘ failing-atom framed by literal text A…B: 14 block wrappers (top, if, else, for over a slice / an Iterator / a map, fn body, helper block, contentFor→contentOf plain / with a default block / with data, contentOf default block, partial body, layout), 12 statement forms (emit, silent, let, assign, if/else-if condition, for iterable, return, partial/contentOf data), 38 expression contexts (each operand side of all 13 binary operators, !, array/hash element, index container/index, Go-helper/user-fn/method argument), 19 failing atoms (helper returning (T,err)/(err), method returning (T,err), failing helper/method as head of a .field/.method()/[i] chain, type error, index out of range, division by zero — each with a recording call so 'reached' is measured — unknown identifier, unknown function, unknown identifier as argument, unknown identifier inside a partial / a helper-rendered template, a method that does not exist on a pointer / value receiver). Oracle when the failing site was reached: err != nil, output empty, errors.Is(err, sentinel) for helper failures; an unknown identifier is tolerated exactly as direct condition or direct operand of ! == != && || and fails everywhere else. (special) one call node evaluated with callees of different signatures (loop over a mixed slice of functions, consecutive executions with the helper rebound): the failing one fails the render; assignments that cannot be carried out (to a field path, with or without a variable named like its last segment, nested, inside a block / function; to unknown variables; out of range) fail the render. Non-trivial: the failing site was reached (counted).",
+		Rule: "compositions wrapper^d ∘ statement-form ∘ expression-context^e ∘ failing-atom framed by literal text A…B: 14 block wrappers (top, if, else, for over a slice / an Iterator / a map, fn body, helper block, contentFor→contentOf plain / with a default block / with data, contentOf default block, partial body, layout), 12 statement forms (emit, silent, let, assign, if/else-if condition, for iterable, return, partial/contentOf data), 38 expression contexts (each operand side of all 13 binary operators, !, array/hash element, index container/index, Go-helper/user-fn/method argument), 19 failing atoms (helper returning (T,err)/(err), method returning (T,err), failing helper/method as head of a .field/.method()/[i] chain, type error, index out of range, division by zero — each with a recording call so 'reached' is measured — unknown identifier, unknown function, unknown identifier as argument, unknown identifier inside a partial / a helper-rendered template, a method that does not exist on a pointer / value receiver). Oracle when the failing site was reached: err != nil, output empty, errors.Is(err, sentinel) for helper failures; an unknown identifier is tolerated exactly as direct condition or direct operand of ! == != && || and fails everywhere else. (special) failing statements inside the blocks of the built-in block helpers (htmlEscape with / without an argument, contentOf default block, contentFor + contentOf) and block helpers that fail themselves after their block ended with break / continue; one call node evaluated with callees of different signatures (loop over a mixed slice of functions, consecutive executions with the helper rebound): the failing one fails the render; assignments that cannot be carried out (to a field path, with or without a variable named like its last segment, nested, inside a block / function; to unknown variables; out of range) fail the render. Non-trivial: the failing site was reached (counted).",
 		Bound: func(th bool) string {
 			if th {
 				return "d<=2 wrappers, e<=2 expression contexts"
@@ -346,6 +346,40 @@ func c05One(t *engine.T, wi, wj int, st c05Stmt, exprs []*c05Expr, at c05Atom) {
 // c05Special: operations that cannot be carried out fail the render - they are never carried out on
 // something else instead.
 func c05Special(t *engine.T) {
+	// failures in and around helper blocks: a failing statement inside the block of a built-in block helper, and a
+	// block helper that fails itself after its block ended with break / continue
+	blocks := []string{
+		`A<%= htmlEscape("x") { %>t<%= fail() %>u<% } %>B`, `A<%= htmlEscape("") { %>t<%= fail() %><% } %>B`, `A<%= htmlEscape() { %><%= fail() %><% } %>B`,
+		`A<% let q = htmlEscape("x") { %><%= fail() %><% } %>B`, `A<%= contentOf("undefined") { %><%= fail() %><% } %>B`, `A<%= contentOf("undefined", {"a": 1}) { %><%= fail() %><% } %>B`,
+		`A<% contentFor("cf") { %><%= fail() %><% } %><%= contentOf("cf") %>B`, `A<% contentFor("cf") { %><%= fail() %><% } %><%= contentOf("cf") { %>default<% } %>B`,
+		`A<%= for (x) in one { %><%= failafter() { %>t<% break %>u<% } %>z<% } %>B`, `A<%= for (x) in one { %><%= failafter() { %>t<% if (true) { continue } %>u<% } %>z<% } %>B`,
+		`A<%= for (x) in one { %><% failafter() { %><% break %><% } %><% } %>B`, `A<%= for (x) in one { %><%= failafter() { %>t<% } %>z<% } %>B`, `A<%= failafter() { %>t<% } %>B`,
+		`A<%= for (x) in one { %><%= blk() { %><%= failafter() { %><% break %><% } %><% } %><% } %>B`,
+	}
+	for _, src := range blocks {
+		src := src
+		t.Case("special block "+q(src), true, func() (string, *engine.Fail) {
+			e := &c05Env{partials: map[string]string{}}
+			ctx := e.context()
+			ctx.Set("failafter", func(help plush.HelperContext) (string, error) {
+				if help.HasBlock() {
+					if _, err := help.Block(); err != nil {
+						return "", err
+					}
+				}
+				return "never", ErrSentinel
+			})
+			ctx.Set("blk", func(help plush.HelperContext) (string, error) { return help.Block() })
+			out, err := Render(src, ctx)
+			if err == nil {
+				return "", engine.Failf("swallowed", "a helper returned an error but Render succeeded with %q", out)
+			}
+			if !errors.Is(err, ErrSentinel) || out != "" {
+				return "", engine.Failf("not-wrapped", "error %v / output %q", err, out)
+			}
+			return "failed-as-required", nil
+		})
+	}
 	cases := []struct{ name, src string }{
 		{"assignment to a field path", `A<% let Name = "a" %><% st.Name = "b" %>B<%= Name %>`},
 		{"assignment to a field path, no such variable", `A<% st.Name = "b" %>B`},
